@@ -53,31 +53,139 @@ func (o winOp) String() string {
 	return fmt.Sprintf("Seek(%d);Read(%d)", o.O, o.K)
 }
 
-// windowKey reads (minOffset,maxOffset,closed) of the BufferedFile behind a Reader.
+// The window of the buffered reader is found SEMANTICALLY, not by field names: among the
+// integer fields of the object behind Reader.contents, the pair (lo, hi) for which
+// buffer[0:hi-lo] == file[lo:hi] holds in two probe states (fresh, and after a read far into a
+// 10 000-byte file) and which moved between the two. A refactoring that renames or reorders the
+// fields is followed automatically; if no such pair exists the search degrades (see windowBFS).
+var winFields struct {
+	probed    bool
+	ok        bool
+	lo, hi    int // field indices
+	buf       int
+}
+
+func bufferedStruct(r *files.Reader) (reflect.Value, bool) {
+	c := reflect.ValueOf(r).Elem().FieldByName("contents")
+	if !c.IsValid() {
+		// the reader's own field may be renamed too: take its first interface/pointer field
+		rv := reflect.ValueOf(r).Elem()
+		for i := 0; i < rv.NumField(); i++ {
+			if k := rv.Field(i).Kind(); k == reflect.Interface || k == reflect.Ptr {
+				c = rv.Field(i)
+				break
+			}
+		}
+	}
+	if !c.IsValid() || c.IsNil() {
+		return reflect.Value{}, false
+	}
+	bf := c.Elem()
+	if bf.Kind() == reflect.Ptr {
+		bf = bf.Elem()
+	}
+	return bf, bf.Kind() == reflect.Struct
+}
+
+func intFieldsAndBuffer(bf reflect.Value) (ints []int, buf int) {
+	buf = -1
+	for i := 0; i < bf.NumField(); i++ {
+		f := bf.Field(i)
+		switch f.Kind() {
+		case reflect.Int, reflect.Int64, reflect.Int32:
+			ints = append(ints, i)
+		case reflect.Slice:
+			if f.Type().Elem().Kind() == reflect.Uint8 && buf < 0 {
+				buf = i
+			}
+		}
+	}
+	return
+}
+
+func bufBytes(v reflect.Value) []byte {
+	b := make([]byte, v.Len())
+	for i := range b {
+		b[i] = byte(v.Index(i).Uint())
+	}
+	return b
+}
+
+func discoverWindowFields(dir string) {
+	winFields.probed = true
+	if os.Getenv("VERIF_C07_NOKEY") != "" {
+		return // test switch: behave as if the window could not be located
+	}
+	defer func() {
+		if recover() != nil {
+			winFields.ok = false
+		}
+	}()
+	content := fileBytes(10000)
+	path := filepath.Join(dir, "probe")
+	os.WriteFile(path, content, 0o644)
+	type obs struct {
+		vals map[int]int64
+		buf  []byte
+	}
+	observe := func(r *files.Reader) (obs, bool) {
+		bf, ok := bufferedStruct(r)
+		if !ok {
+			return obs{}, false
+		}
+		ints, bi := intFieldsAndBuffer(bf)
+		if bi < 0 {
+			return obs{}, false
+		}
+		o := obs{vals: map[int]int64{}, buf: bufBytes(bf.Field(bi))}
+		for _, i := range ints {
+			o.vals[i] = bf.Field(i).Int()
+		}
+		winFields.buf = bi
+		return o, true
+	}
+	r := files.ReaderFromFile(path)
+	o1, ok1 := observe(r)
+	r.ReadAt(1, 9000)
+	o2, ok2 := observe(r)
+	r.Close()
+	if !ok1 || !ok2 {
+		return
+	}
+	holds := func(o obs, lo, hi int64) bool {
+		return lo >= 0 && hi > lo && hi <= 10000 && int(hi-lo) <= len(o.buf) && string(o.buf[:hi-lo]) == string(content[lo:hi])
+	}
+	best := int64(-1)
+	for a := range o1.vals {
+		for b := range o1.vals {
+			if a == b {
+				continue
+			}
+			if holds(o1, o1.vals[a], o1.vals[b]) && holds(o2, o2.vals[a], o2.vals[b]) && (o1.vals[a] != o2.vals[a] || o1.vals[b] != o2.vals[b]) {
+				if w := o2.vals[b] - o2.vals[a]; w > best {
+					best, winFields.lo, winFields.hi, winFields.ok = w, a, b, true
+				}
+			}
+		}
+	}
+}
+
+// windowKey reads (window start, window end) and the buffer of the reader.
 func windowKey(r *files.Reader) (key [2]int64, buf []byte, ok bool) {
 	defer func() {
 		if recover() != nil {
 			ok = false
 		}
 	}()
-	c := reflect.ValueOf(r).Elem().FieldByName("contents")
-	if !c.IsValid() || c.IsNil() {
+	if !winFields.ok {
 		return key, nil, false
 	}
-	bf := c.Elem()
-	if bf.Kind() == reflect.Ptr {
-		bf = bf.Elem()
-	}
-	mn, mx, bb := bf.FieldByName("minOffset"), bf.FieldByName("maxOffset"), bf.FieldByName("buffer")
-	if !mn.IsValid() || !mx.IsValid() || !bb.IsValid() {
+	bf, ok := bufferedStruct(r)
+	if !ok {
 		return key, nil, false
 	}
-	key = [2]int64{mn.Int(), mx.Int()}
-	buf = make([]byte, bb.Len())
-	for i := range buf {
-		buf[i] = byte(bb.Index(i).Uint())
-	}
-	return key, buf, true
+	key = [2]int64{bf.Field(winFields.lo).Int(), bf.Field(winFields.hi).Int()}
+	return key, bufBytes(bf.Field(winFields.buf)), true
 }
 
 func applyOp(r *files.Reader, op winOp) (res string, pi *PanicInfo) {
@@ -93,6 +201,9 @@ func applyOp(r *files.Reader, op winOp) (res string, pi *PanicInfo) {
 }
 
 func windowBFS(c *Ctx, dir string, n int) {
+	if !winFields.probed {
+		discoverWindowFields(dir)
+	}
 	content := fileBytes(n)
 	path := filepath.Join(dir, fmt.Sprintf("w%d", n))
 	os.WriteFile(path, content, 0o644)
@@ -119,6 +230,16 @@ func windowBFS(c *Ctx, dir string, n int) {
 		}
 	}
 	sortOps(ops)
+	if !winFields.ok {
+		// no state key: all operation sequences of length <= 2 over a reduced alphabet (every third operation)
+		var red []winOp
+		for i, op := range ops {
+			if i%3 == 0 {
+				red = append(red, op)
+			}
+		}
+		ops = red
+	}
 	open := func(pathOps []winOp) (*files.Reader, *PanicInfo) {
 		var r *files.Reader
 		pi := guard(func() { r = files.ReaderFromFile(path) })
@@ -170,7 +291,7 @@ func windowBFS(c *Ctx, dir string, n int) {
 	seen := map[[2]int64]bool{k0: true}
 	frontier := []node{{nil}}
 	if !keyOK {
-		c.Note("state_key: unavailable (reflection on BufferedFile failed); exploring all operation sequences of length <= 3 instead")
+		c.Note("state_key: unavailable (reflection on BufferedFile failed); exploring all operation sequences of length <= 2 over a reduced alphabet instead")
 	}
 	depth := 0
 	for len(frontier) > 0 {
@@ -217,7 +338,7 @@ func windowBFS(c *Ctx, dir string, n int) {
 						seen[key] = true
 						next = append(next, node{np})
 					}
-				} else if depth < 2 {
+				} else if depth < 1 {
 					next = append(next, node{np})
 				}
 			}
